@@ -172,12 +172,10 @@ def pick_kinds(rng, tree, ann):
         kinds.append("comment_text")
     if rng.random() < 0.08:
         kinds.append("bigpad")
-    if rng.random() < 0.15 and not any_attr_colon(tree):
+    if rng.random() < 0.15:
         kinds.append("unused_decl")
-    if any_attr_colon(tree):
-        # wildcard attribute values `p:rest` are rewritten when `p` is declared (finding
-        # c09-any-attr-prefix): keep the prefixes of such documents as they are
-        kinds = [k for k in kinds if k not in ("prefix", "default")]
+    # (documents with wildcard attribute values `p:rest` are respelled like all others: the model reproduces
+    # finding c09-any-attr-prefix, so model and code must agree on them too)
     return kinds
 
 
@@ -679,7 +677,38 @@ CORRS = [
 
 
 # ------------------------------------------------------------------ the property on the implementation alone
+# hand-written documents inside the region of c09-native-xinclude-prefixes (QName content whose prefix the ElementTree
+# walk forgets, or happens to re-invent): what the native handler does there with process_xinclude must stay exactly
+# what the finding describes (oracle_covered replays it independently)
+XI_DESC = {"classes": [
+    {"name": "Leaf", "meta": {"namespace": "urn:a"}, "fields": [
+        {"name": "q", "type": {"opt": "qname"}, "metadata": {"type": "Element"}, "default": {"value": None}},
+        {"name": "r", "type": {"opt": "qname"}, "metadata": {"type": "Attribute"}, "default": {"value": None}}]},
+    {"name": "Root", "meta": {"namespace": "urn:a"}, "fields": [
+        {"name": "item", "type": {"list": {"cls": "Leaf"}}, "metadata": {"type": "Element"}, "default": {"factory": "list"}}]},
+]}
+_XI_ITEMS = [
+    '<ns0:item xmlns:ns0="urn:a" xmlns:ns1="urn:q"><ns0:q>ns1:n2</ns0:q></ns0:item>',
+    '<ns0:item xmlns:ns0="urn:a"><ns0:q>ns0:n1</ns0:q></ns0:item>',
+    '<ns0:item xmlns:ns0="urn:a" xmlns:ns1="urn:q" xmlns:ns2="urn:r" r="ns2:k"><ns0:q>ns1:n2</ns0:q></ns0:item>',
+    '<p:item xmlns:p="urn:a" xmlns:xs="urn:q"><p:q>xs:n3</p:q></p:item>',
+]
+
+
+def gen_xi_corpus():
+    u = uni_of({"desc": XI_DESC})
+    for item in _XI_ITEMS:
+        orig = ('<ns0:Root xmlns:ns0="urn:a">%s%s</ns0:Root>' % (item, item)).encode()
+        main = ('<ns0:Root xmlns:ns0="urn:a" xmlns:xi="http://www.w3.org/2001/XInclude"><xi:include href="part0.xml"/>'
+                '<xi:include href="part0.xml"/></ns0:Root>').encode()
+        for doc, files in ((main, {"part0.xml": item.encode()}), (orig, {})):
+            yield {"desc": XI_DESC, "_uni": u.modname, "clazz": "Root", "config": {}, "orig": b64(orig), "doc": b64(doc),
+                   "files": {k: b64(v) for k, v in files.items()}, "xinclude": True, "kinds": ["corpus", "xinclude"],
+                   "encoding": "utf-8", "cuts": []}
+
+
 def gen_oracle(rng, tier):
+    yield from gen_xi_corpus()
     for u, ctx, desc, tree, kind in documents(rng, tier, n_cases(tier, 60, 600), 3, mutate=False):
         try:
             orig = G.tree_xml(tree)
@@ -687,8 +716,13 @@ def gen_oracle(rng, tier):
         except Exception:  # noqa: BLE001
             continue
         ann = R.annotate(u, tree)
-        for _ in range(4):
+        sens = prefix_sensitive(tree, ann)
+        for i in range(4):
             kinds = [k for k in R.ALL_KINDS if rng.random() < 0.3]
+            if sens and i == 0 and "xinclude" not in kinds:
+                # the region of c09-native-xinclude-prefixes is visited for every document that has one: what happens
+                # there must stay what the finding describes (oracle_covered replays it), nothing else
+                kinds.append("xinclude")
             try:
                 data, files, _new_tree, info = R.respell(tree, ann, rng, kinds)
             except R.Skip:
@@ -738,19 +772,154 @@ def oracle_check(a):
             f"{json.dumps(r[k], ensure_ascii=False)[:300]} vs {json.dumps(ref, ensure_ascii=False)[:300]}")
 
 
-def mask_any_attrs(v):
-    """forget the values of wildcard attributes that look like prefixed or Clark names"""
+def any_attr_outcomes(docs):
+    """What the unchanged `ParserUtils.parse_any_attribute` makes of the attribute values of these documents (finding
+    c09-any-attr-prefix), read off an independent (expat) infoset: the Clark names it produces from `p:rest` values
+    whose prefix is in scope where the attribute stands, and the `p:rest` values it leaves alone.  `docs[0]` is the
+    main document; the others are XInclude parts: where they end up, the declarations of the including document are
+    in scope as well for a handler that works on the merged tree (lxml), and are not for one that does not, so for a
+    prefix declared only there both outcomes are the finding's."""
+    rewritten, kept = set(), set()
+    outer = {}
+
+    def go(n, part):
+        ns = {p: u for p, u in n["ns"]}
+        if not part:
+            outer.update({p: u for p, u in ns.items() if p and u})
+        for _, v in n["a"]:
+            left, sep, right = v.partition(":")
+            if sep and left and right and not right.startswith("//"):
+                if ns.get(left):
+                    rewritten.add("{%s}%s" % (ns[left], right))
+                else:
+                    kept.add(v)
+                    if part and outer.get(left):
+                        rewritten.add("{%s}%s" % (outer[left], right))
+            elif sep and left and right:
+                kept.add(v)
+        for c in n["c"]:
+            go(c, part)
+
+    for i, data in enumerate(docs):
+        go(R.infoset(data), i > 0)
+    return rewritten, kept
+
+
+def _local(b):
+    return b.split("}", 1)[1] if b.startswith("{") and "}" in b else b.split(":", 1)[1] if ":" in b else b
+
+
+def mask_any_attrs(v, outcomes=None):
+    """forget WHICH name a wildcard attribute value spells, where the listed finding explains the spelling: a Clark
+    name the unchanged code produces from a prefixed value of this very document, or a prefixed value it leaves alone
+    there (`outcomes`); the part after the prefix / namespace is kept.  Without `outcomes` (infoset not available)
+    every name-like value is forgotten."""
     if isinstance(v, dict):
         out = {}
         for k, x in v.items():
             if k == "attrs" and isinstance(x, list):
-                out[k] = [[a, ("<name>" if (":" in b or b.startswith("{") or a == R.XSI_TYPE) else b)] for a, b in x]
+                row = []
+                for a, b in x:
+                    if outcomes is None:
+                        b = "<name>" if (":" in b or b.startswith("{") or a == R.XSI_TYPE) else b
+                    elif a == R.XSI_TYPE:
+                        # a captured xsi:type is a QName the respeller may spell with another prefix or through the
+                        # default namespace; the rewriting turns only the prefixed spellings into Clark names
+                        b = "<name>:" + _local(b)
+                    elif b in outcomes[0]:
+                        b = "<name>:" + b.split("}", 1)[1]
+                    elif b in outcomes[1]:
+                        b = "<name>:" + b.split(":", 1)[1]
+                    row.append([a, b])
+                out[k] = row
             else:
-                out[k] = mask_any_attrs(x)
+                out[k] = mask_any_attrs(x, outcomes)
         return out
     if isinstance(v, list):
-        return [mask_any_attrs(x) for x in v]
+        return [mask_any_attrs(x, outcomes) for x in v]
     return v
+
+
+# ---- finding c09-native-xinclude-prefixes, stated independently of XmlEventHandler.parse / iterwalk
+_STD_PREFIX = None
+
+
+def _std_prefix(uri):
+    global _STD_PREFIX
+    if _STD_PREFIX is None:
+        from xsdata.models.enums import Namespace
+
+        _STD_PREFIX = {ns.uri: ns.prefix for ns in Namespace}
+    return _STD_PREFIX.get(uri)
+
+
+def prefixes_forgotten(main: bytes, files: dict) -> bytes:
+    """The document the finding says the native handler effectively reads with process_xinclude=True: the includes
+    resolved by the standard library (ElementTree + ElementInclude, which keep no prefix declarations, comments or
+    PIs), every namespaced ELEMENT declaring a prefix for its own namespace on itself (one prefix per namespace for the
+    whole document: the conventional one of a well-known namespace if free, else ns<number of prefixes so far>), and
+    nothing else in scope.  Attribute namespaces get private prefixes no content can refer to."""
+    import xml.etree.ElementInclude as EI
+    import xml.etree.ElementTree as ET
+    from xml.sax.saxutils import escape, quoteattr
+
+    d = tempfile.mkdtemp(prefix="c09-xr-")
+    try:
+        with open(os.path.join(d, "main.xml"), "wb") as f:
+            f.write(main)
+        for name, content in files.items():
+            with open(os.path.join(d, name), "wb") as f:
+                f.write(content)
+        root = ET.parse(os.path.join(d, "main.xml")).getroot()
+        EI.include(root, base_url=os.path.join(d, "main.xml"))
+    finally:
+        shutil.rmtree(d, ignore_errors=True)
+    alloc = {}      # prefix -> uri, document wide, in allocation order
+    out = []
+
+    def prefix_for(uri):
+        for p, u in alloc.items():
+            if u == uri:
+                return p
+        p = _std_prefix(uri)
+        n = len(alloc)
+        while p is None or p in alloc:
+            p = "ns%d" % n
+            n += 1
+        alloc[p] = uri
+        return p
+
+    def walk(el):
+        uri, local = R.split_clark(el.tag)
+        decls, name = [], local
+        if uri:
+            p = prefix_for(uri)
+            decls.append(' xmlns:%s=%s' % (p, quoteattr(uri)))
+            name = p + ":" + local
+        attrs, k = [], 0
+        for an, av in el.attrib.items():
+            au, al = R.split_clark(an)
+            if au == R.XML_NS:
+                an2 = "xml:" + al
+            elif au:
+                ap = "zzc09a%d" % k
+                k += 1
+                decls.append(' xmlns:%s=%s' % (ap, quoteattr(au)))
+                an2 = ap + ":" + al
+            else:
+                an2 = al
+            attrs.append(" %s=%s" % (an2, quoteattr(av, {"\n": "&#10;", "\r": "&#13;", "\t": "&#9;"})))
+        out.append("<" + name + "".join(decls) + "".join(attrs) + ">")
+        if el.text:
+            out.append(escape(el.text, {"\r": "&#13;"}))
+        for c in el:
+            walk(c)
+            if c.tail:
+                out.append(escape(c.tail, {"\r": "&#13;"}))
+        out.append("</" + name + ">")
+
+    walk(root)
+    return "".join(out).encode("utf-8")
 
 
 def oracle_covered(a, msg):
@@ -762,9 +931,18 @@ def oracle_covered(a, msg):
     if r["orig/native"] != r["orig/lxml"]:
         return None  # the two handlers disagree on the original spelling: nothing listed explains that
     ref = r["orig/native"]
-    m = mask_any_attrs
+    files = {k: unb64(v) for k, v in a["files"].items()}
+    try:
+        out_orig = any_attr_outcomes([unb64(a["orig"])])
+        out_new = any_attr_outcomes([unb64(a["doc"])] + list(files.values()))
+    except Exception:  # noqa: BLE001
+        out_orig = out_new = None
+
+    def m(k, v):
+        return mask_any_attrs(v, out_orig if k.startswith("orig/") else out_new)
+
     bad_plain = {k for k, v in r.items() if v != ref}
-    bad = {k for k in bad_plain if m(r[k]) != m(ref)}
+    bad = {k for k in bad_plain if m(k, r[k]) != m("orig/native", ref)}
     if bad_plain - bad:
         found.append("c09-any-attr-prefix")
 
@@ -785,12 +963,17 @@ def oracle_covered(a, msg):
             if m(four_results(flat)[k]) == m(ref):
                 return "c09-lxml-xinclude-xml-base"
         if k == "new/native" and a["xinclude"]:
-            # with process_xinclude the native handler walks an ElementTree and invents the prefixes:
-            # every document whose content uses prefixes (QName values, xsi:type, name-like wildcard
-            # attribute values) is affected, also without any include in it
+            # with process_xinclude the native handler walks an ElementTree and invents the prefixes: documents whose
+            # content uses prefixes (QName values, xsi:type, name-like wildcard attribute values) are affected, also
+            # without any include in them.  The finding covers the result only if it is what the parser makes of the
+            # document with the prefixes forgotten in exactly that way (read the ordinary way, no XInclude processing)
             try:
                 t = R.infoset(unb64(a["orig"]))
-                if prefix_sensitive(t, R.annotate(u, t)):
+                if not prefix_sensitive(t, R.annotate(u, t)):
+                    return None
+                flat = prefixes_forgotten(unb64(a["doc"]), files)
+                want = py_eq_canon(real_parse(u, a["clazz"], flat, "native", a["config"]))
+                if want == r[k]:
                     return "c09-native-xinclude-prefixes"
             except Exception:  # noqa: BLE001
                 pass
